@@ -11,7 +11,8 @@ from .. import labelled as L
 from .. import spaces
 from ..refmodel import dtl, ordered, refine
 from ..refmodel.trees import T, shape_from_json, binary_shapes
-from superrec2.compute.reconciliation import reconcile_thl
+from superrec2.compute.reconciliation import reconcile_thl, reconcile_lca
+from superrec2.compute.exhaustive import reconcile_exhaustive
 
 PROP = "C09"
 LEVEL = "exploration"
@@ -243,13 +244,32 @@ def through_dict_form(inp, O, S, onode, snode):
     return inp2, onode2, snode2
 
 
-def solve(algo, family, pres, twice=False, after_other=False, inplace=False, via_dict=False):
+def solve(algo, family, pres, twice=False, after_other=False, inplace=False, via_dict=False, after_algos=False):
     """-> (min cost or None, list of keys, error)"""
     try:
         inp, O, S, olab, slab, onode, snode = pres.build(family)
         if via_dict:
             inp, onode, snode = through_dict_form(inp, O, S, onode, snode)
         fn = reconcile_thl if algo == "thl" else L.SOLVERS[algo][0]
+        if after_algos:
+            # every other algorithm of the package that accepts this input has been run on the SAME input object before
+            others = {"plain": ("lca", "thl", "exh"), "ordered": ("lca", "thl", "base_spfs", "ext_spfs"),
+                      "unordered": ("lca", "thl", "base_uspfs", "superdtl")}[family]
+            for other in others:
+                if other == algo:
+                    continue
+                try:
+                    if other == "lca":
+                        reconcile_lca(inp)
+                    elif other == "thl":
+                        list(reconcile_thl(inp, A.POLICY["ANY"]))
+                    elif other == "exh":
+                        list(reconcile_exhaustive(inp, A.POLICY["ANY"]))
+                    else:
+                        list(L.SOLVERS[other][0](inp, A.POLICY["ALL"]))
+                        list(L.SOLVERS[other][0](inp, A.POLICY["ANY"]))
+                except Exception as exc:
+                    return None, [], f"{other} (run before {algo} on the same input object) raised {type(exc).__name__}: {exc}"
         if after_other:
             list(fn(other_input(inp, S, snode, family), A.POLICY["ALL"]))   # state carried over from another input
         if inplace == "scale":
@@ -289,6 +309,7 @@ def transformations(onest, snest, costs, family):
     out.append(("outgroup_right", "outgroup", {"snest": (snest, "X")}))
     out.append(("outgroup_left", "outgroup", {"snest": ("X", snest)}))
     out.append(("through_dict_form", "same", {"via_dict": True}))
+    out.append(("after_other_algorithms", "same", {"after_algos": True}))
     out.append(("repeat_same_object", "twice", {}))
     out.append(("repeat_fresh", "same", {}))
     # another input solved first on the same tree objects and the same LowestCommonAncestor structure
@@ -331,7 +352,7 @@ def check_input(algo, family, osh, ssh, leafmap, leafsyn, costs, only=None, kind
         k = kw.pop("k", None)
         p = Pres(kw.get("onest", onest), kw.get("snest", snest), leafmap, leafsyn, kw.get("costs", costs),
                  kw.get("naming", "default"), kw.get("fam", "id"), kw.get("order", "pre"))
-        c1, k1, err = solve(algo, family, p, twice=(kind == "twice"), after_other=(kind == "after"), inplace=("scale" if kind == "scale_inplace" else kind == "inplace"), via_dict=kw.get("via_dict", False))
+        c1, k1, err = solve(algo, family, p, twice=(kind == "twice"), after_other=(kind == "after"), inplace=("scale" if kind == "scale_inplace" else kind == "inplace"), via_dict=kw.get("via_dict", False), after_algos=kw.get("after_algos", False))
         runs += 1
         if err:
             bad.append((name, f"{name}: {err}"))
@@ -406,7 +427,7 @@ def corpus_digest(tier):
         inp, _, _ = A.build_input(O, S, lm, costs, ls2, unordered=(fam == "unordered"))
         fn = reconcile_thl if algo == "thl" else L.SOLVERS[algo][0]
         outs = fn(inp, A.POLICY["ALL"])
-        ser = sorted(json.dumps(o.to_dict(), sort_keys=True) for o in outs)
+        ser = sorted(json.dumps(o.to_dict(), sort_keys=True, default=str) for o in outs)
         h.update(json.dumps([algo, ser]).encode())
         n += 1
     return n, h.hexdigest()
